@@ -60,6 +60,6 @@ Proof. exact legacy_unstarted_dependency_ignored. Qed.
 Print Assumptions legacy_dep_all_started_refuted.
 
 Example c05_cfg_ok : cfg_ok w4_cfg.
-Proof. apply cfg_okb_sound. vm_compute. reflexivity. Qed.
+Proof. exact (proj1 (proj2 (proj2 cfg_ok_examples))). Qed.
 Example c05_inv : TaskInv w4_cfg w4_db.
-Proof. apply (TaskInv_by_ghost _ _ []); reflexivity. Qed.
+Proof. exact w4_inv_example. Qed.
